@@ -276,8 +276,8 @@ def gen_multi_run_exhaustive(ctx):
         for r in runs:                       # one failing run
             patterns.append(dict(rows, **{r: ("err", "KeyError")}))
         pairs = list(itertools.combinations(srt, 2))
-        if not ctx.thorough:
-            pairs = [pr for pr in pairs if srt.index(pr[1]) - srt.index(pr[0]) == 1]   # neighbouring runs only
+        if not ctx.thorough:                 # quick: neighbouring runs only, and only up to 3 runs
+            pairs = [pr for pr in pairs if srt.index(pr[1]) - srt.index(pr[0]) == 1 and n <= 3]
         for a, b in pairs:                   # two failing runs, different kinds
             patterns.append(dict(rows, **{a: ("err", "ValueError"), b: ("err", "RuntimeError")}))
         if n:
@@ -926,24 +926,38 @@ def _lap(t0, what):
 def run(ctx):
     import time
     t0 = [time.time()]
+    only = os.environ.get("C15_ONLY", "")       # development aid: stubs | registry | real
+    if only in ("", "stubs"):
+        run_stubs(ctx)
+    _lap(t0, "multi_run stubs")
+    with quiet_stdout():
+        # warm up jitted code so that no step of a controlled thread is slow
+        expected_single("0", "single"), expected_single("0", "multi")
+        if only in ("", "registry"):
+            run_registry(ctx, t0)
+        if only in ("", "real"):
+            run_real(ctx, t0)
+
+
+def run_stubs(ctx):
     cases = gen_multi_run_exhaustive(ctx)
     ctx.correspond("multi_run/exhaustive", cases, impl_multi_run, op_multi_run, oracle_multi_run,
                    nontrivial=nontrivial_multi_run, exhaustive=True, branch=branch_multi_run,
                    rule="0..4 runs (unsorted ids, lexicographic trap) x every completion order x workers 1..4 x {all ok, each single failing run, "
                         "pairs failing with different kinds, an empty result} x ignore_errors x throw_away_result; non-trivial = at least 2 runs")
-    cases = gen_multi_run_random(ctx, ctx.pick(300, 4000))
+    cases = gen_multi_run_random(ctx, ctx.pick(200, 4000))
     ctx.correspond("multi_run/random", cases, impl_multi_run, op_multi_run, oracle_multi_run,
                    nontrivial=nontrivial_multi_run, branch=branch_multi_run,
                    rule="0..10 runs (15% with duplicate ids), workers 1..8, random full or partial completion priorities, 0..3 failing runs of random kinds")
-    cases = gen_multi_run_random(ctx, ctx.pick(200, 3000), scripted=False)
+    cases = gen_multi_run_random(ctx, ctx.pick(150, 3000), scripted=False)
     ctx.check_oracle("multi_run/free-running", cases, impl_multi_run, oracle_multi_run, nontrivial=nontrivial_multi_run,
                      branch=branch_multi_run,
                      rule="same generator, stubs finish on their own after 0..4 ms (several futures per wait() round): oracle only")
 
-    _lap(t0, "multi_run stubs")
-    with quiet_stdout():
-        # warm up jitted code so that no step of a controlled thread is slow
-        expected_single("0", "single"), expected_single("0", "multi")
+
+
+def run_registry(ctx, t0):
+    if True:
         nontriv = lambda c, o: True  # noqa: E731
         rule_il = ("2..3 real threads, each get_array(run_i, targets) on ONE context, scheduled line by line inside strax/context.py; every access of the "
                    "plugin registry, of the _fixed_plugin_cache attribute and of the inner plugin-cache dicts is logged and replayed through the Lean model, "
@@ -965,6 +979,9 @@ def run(ctx):
         _SIDE.clear()
         _lap(t0, "registry/preempt")
 
+
+def run_real(ctx, t0):
+    if True:
         cap = Capped(ctx, oracle_real)
         cases = [real_case(ctx.rng) for _ in range(ctx.pick(120, 1500))]
         ctx.check_oracle("real/multi-run", cases, impl_real, cap, nontrivial=lambda c, o: c["workers"] >= 2, branch=branch_real,
